@@ -83,6 +83,12 @@ def _range(k, a, b, form):
     if form == "from": b = 65529
     return {"k": k, "a": 0 if a is None else a, "b": 65529 if b is None else b, "form": form,
             "bare": form == "all"}
+def renum(new=None, old=None, step=None):
+    parts = ["" if new is None else str(new), "" if old is None else str(old), "" if step is None else str(step)]
+    while parts and parts[-1] == "":
+        parts.pop()
+    return {"k": "renum", "new": 10 if new is None else new, "old": 0 if old is None else old,
+            "step": 10 if step is None else step, "args": ",".join(parts)}
 def bad(txt, code=2): return {"k": "bad", "txt": txt, "cp": cps(txt), "code": code}
 
 # commands
